@@ -8,29 +8,74 @@ matched taxa) get root paths computed from the same tables.  The specification i
 *sorted set* of matched taxa, so `impl(order) != spec(set)` is at the same time a wrong consensus and
 an order dependence; an independent Python oracle (maximal elements + LCA on the parent table)
 cross-checks the extracted specification.  A third stream builds small reference databases
-(sqlite + HDF5) and runs `gambit query --strict -s ... -f archive -o ...` in process."""
+(sqlite + HDF5) and runs `gambit query --strict -s ... -f archive -o ...` in process.  A fourth kind
+(`query`, no Coq model behind it) drives the Python entry points with database-loaded objects.
+
+Coverage audit (item of the property text -> streams that run it ON THE IMPLEMENTATION; [P] = the property
+predicate is judged there, [M] = also compared with the extracted model; "new" = added by the audit):
+  clauses
+   each genome matches most specific covering threshold-bearing taxon   classify-* (matching_taxon, find_matches) [P][M]; query, cli via outcome [P]
+   consensus = most specific / LCA of most specific / None + failed      exhaustive-consensus, random-consensus [P][M]; classify-*, cli-*, query [P]
+   never depends on the order of the references / matches               all orders <=4 (exhaustive-consensus, classify-all-reference-orders), shuffles;
+                                                                        new consensus-structured-orders (ancestors/descendants first, by depth,
+                                                                        lineage-wise, interleaved, rotated), set/dict iteration orders [P][M]
+   prediction comparable with every matched taxon                       implied by impl == spec(set) wherever the consensus is judged [P]
+   warning names exactly the matched taxa strictly below                classify-*, cli-*, query [P]; new classify-unusual-names (commas, colons, empty,
+                                                                        repeated, non-ASCII names: count and short_repr()s) [P]
+   primary match = a nearest genome matched at/below the prediction     classify-*, cli-*, query [P] (ties unconstrained)
+  quantifier
+   all forests                                                          exhaustive <=5 taxa, random <=14; new consensus-large (30..120 taxa: deep spines,
+                                                                        wide stars), classify-large (<=60 taxa, 50..300 genomes) [P][M]
+   all sets of matched taxa (empty, single, repeated, >=4 conflicting)   exhaustive k<=4, malformed-repetitions, random k<=9; new consensus-large k<=40
+   three-level conflicts                                                fixed instance (classify-three-level, cli-three-level) + random; new
+                                                                        consensus-/classify-three-level-general: X, descendant any depth below, Z off any
+                                                                        ancestor, +consensus itself / higher ancestor / 2nd branch / other tree, all orders
+   distances / thresholds                                               sixteenths, float32/64 (was); new classify-real-distances: thirds .. thousandths as
+                                                                        float64/32/16, on and beside thresholds [P, no model]; query: Jaccard p/q [P, no model]
+  observe at / call forms
+   consensus_taxon(iterable)                                            list only (was); new consensus-containers: tuple, set, frozenset, dict view, dict,
+                                                                        generator, one-shot iterator, second call on the same object [P][M]
+   classify(refs, dists, strict=)                                       list + contiguous native float32/64 (was); new classify-call-forms: float16,
+                                                                        byte-swapped, strided / reversed / column views with decoy cells, read-only, tuple of
+                                                                        refs, strict=np.True_ / 1, one genome object listed twice, second call on the same
+                                                                        objects; matching_taxon(Python float / int), find_matches(list / generator) [P][M]
+   gambit.query.query / QueryParams / get_result_item (persistent objects) was: only through the CLI; new query: load / load_from_dir, params / keyword /
+                                                                        positional form, chunksize None/1/2/3/1000, several queries per call, query
+                                                                        containers and dtypes, signature order != genome order, unrelated signatures [P]
+   gambit query --strict -f archive                                     -s with one query (was); new query: several queries per file, FASTA files
+                                                                        positional and -l/--ldir (query_parse), -c, --no-progress [P]
+  not driven: non-strict mode, -f csv/json (they show report_taxon, other properties), empty reference list (np.argmin
+  raises before strict mode starts), NaN / infinite distances, cyclic parent pointers (outside the stated domain)."""
 import itertools
 import re
 
 PROP = 'C10'
-RULE = ('consensus: (forest, sequence of matched taxa) -> consensus_taxon; classify: (forest with thresholds, '
-        'reference genomes with distances, in a given order) -> classify(strict=True), matching_taxon, find_matches; '
-        'cli: the same through a scratch database and `gambit query --strict -f archive`. '
+RULE = ('consensus: (forest, sequence of matched taxa[, container type]) -> consensus_taxon; classify: (forest with thresholds, '
+        'reference genomes with distances, in a given order[, call form: array dtype/layout, refs container, strict flag, scalar types, '
+        'repeated genome object, second call; unusual taxon names; denominators other than 16]) -> classify(strict=True), matching_taxon, '
+        'find_matches; cli: the same through a scratch database and `gambit query --strict -f archive`; query: scratch database + '
+        'nested k-mer sets (Jaccard distances 1-min/max) -> ReferenceDatabase.load*, gambit.query.query (params / keyword forms, chunk '
+        'sizes, several queries), then `gambit query --strict -f archive` with a multi-query signature file or FASTA files. '
         'non-trivial: at least two distinct matched taxa; counted separately: three-level conflicts '
-        '{taxon, a strict descendant, an incomparable taxon of the same tree}')
+        '{taxon, a strict descendant, an incomparable taxon of the same tree}, container / option / shape counters')
 TRUSTED = ['SQLAlchemy ORM: transient Taxon/AnnotatedGenome objects (parent relationship, identity equality/hash) '
            'behave like loaded ones for .parent/.ancestors()/.distance_threshold',
            'NumPy: np.argmin, float comparison of exactly representable distances k/16 (float32 and float64 arrays) '
            'with Python-float thresholds',
            'CPython dict insertion order / set semantics (modelled by association lists / lists compared as sets)',
            'cli stream: SQLite/SQLAlchemy, h5py and the distance kernel deliver the taxonomy, thresholds and the Jaccard '
-           'distances (16-m)/16 the harness designed into the scratch database (query {0..15}, reference = its first m k-mers)']
+           'distances (16-m)/16 the harness designed into the scratch database (query {0..15}, reference = its first m k-mers)',
+           'query kind: the same, with k-mer sets that are prefixes of 16 fixed 5-mers over {C,G} (distance 1-min/max); FASTA input: '
+           'k-mer search and index coding (ACGT=0123, big-endian; properties C01/C06/C07) turn the contigs ATGAC+w into those sets']
 ASSUMPTIONS = ['the taxonomy is a forest (parent pointers acyclic), so every taxon is identified by its root path',
                'distances and thresholds are finite floats; the harness uses multiples of 1/16 so that the model can use integers',
                'the closest-match fields (closest_match, next_taxon, "Primary genome match is not closest match" warning) '
                'are not part of this property and are not compared',
                'primary match: only its distance and the property predicate are compared with the specification '
-               '(ties between equally near genomes are not constrained by the property)']
+               '(ties between equally near genomes are not constrained by the property)',
+               'streams outside the integer model (classify with denominators other than 16, kind query) are judged by the '
+               'specification on the matched set computed with exact comparisons of the numbers handed over, and the property '
+               'predicate; the reported primary distance is there only required to agree to float32 accuracy']
 SHRINK = True
 BATCH = 1500
 
@@ -97,9 +142,9 @@ def _dec_cons(v):
 _taxa_cache = {}
 
 
-def _taxa(parents, thr=None):
+def _taxa(parents, thr=None, den=16, names=None):
 	from gambit.db import Taxon
-	key = (tuple(parents), tuple(thr) if thr is not None else None)
+	key = (tuple(parents), tuple(thr) if thr is not None else None, den, tuple(names) if names is not None else None)
 	if key not in _taxa_cache:
 		if len(_taxa_cache) > 64:
 			_taxa_cache.clear()
@@ -107,8 +152,8 @@ def _taxa(parents, thr=None):
 		for i, p in enumerate(parents):
 			kw = {}
 			if thr is not None and thr[i] is not None:
-				kw['distance_threshold'] = thr[i] / 16
-			taxa.append(Taxon(id=i, name=f't{i}', parent=taxa[p] if p >= 0 else None, **kw))
+				kw['distance_threshold'] = thr[i] / den
+			taxa.append(Taxon(id=i, name=f't{i}' if names is None else names[i], parent=taxa[p] if p >= 0 else None, **kw))
 		_taxa_cache[key] = taxa
 	return _taxa_cache[key]
 
@@ -120,6 +165,31 @@ def _names(parents, idxs):
 # ---------------------------------------------------------------------------------------------
 # kind: consensus
 
+_CONTAINERS = ('list', 'tuple', 'set', 'frozenset', 'dict_keys', 'dict', 'generator', 'iterator')
+
+
+def _container(kind, items):
+	"""the argument object handed to consensus_taxon (it is documented to take any iterable; classify hands it
+	dict.keys()) and whether it can be iterated a second time"""
+	if kind == 'list':
+		return list(items), True
+	if kind == 'tuple':
+		return tuple(items), True
+	if kind == 'set':
+		return set(items), True
+	if kind == 'frozenset':
+		return frozenset(items), True
+	if kind == 'dict_keys':
+		return dict.fromkeys(items).keys(), True
+	if kind == 'dict':
+		return dict.fromkeys(items), True
+	if kind == 'generator':
+		return (t for t in items), False
+	if kind == 'iterator':
+		return iter(items), False
+	raise ValueError('bad container')
+
+
 def k_consensus(ctx, cases):
 	from gambit.classify import consensus_taxon
 	prepared = []
@@ -129,18 +199,27 @@ def k_consensus(ctx, cases):
 		order = list(c['order'])
 		if any((not isinstance(i, int)) or i < 0 or i >= len(paths) for i in order):
 			raise ValueError('bad order')
-		seq = [paths[i] for i in order]
+		taxa = _taxa(c['parents'])
+		index = {id(t): i for i, t in enumerate(taxa)}
+		kind = c.get('container', 'list')
+		arg, again = _container(kind, [taxa[i] for i in order])
+		# the sequence the implementation will see (sets / dict views: their own iteration order, repetitions gone)
+		seen = [index[id(t)] for t in arg] if again else list(order)
+		seq = [paths[i] for i in seen]
 		canon = [paths[i] for i in sorted(set(order))]
-		prepared.append((paths, order))
+		prepared.append((paths, order, taxa, index, kind, arg, again, seen))
 		reqs += [(1001, seq), (1002, seq), (1003, canon)]
 	ans = ctx.model(reqs) if ctx.model_ok else None
 	for n, c in enumerate(cases):
-		paths, order = prepared[n]
-		taxa = _taxa(c['parents'])
-		index = {id(t): i for i, t in enumerate(taxa)}
+		paths, order, taxa, index, kind, arg, again, seen = prepared[n]
+		impl2 = None
 		try:
-			r = consensus_taxon([taxa[i] for i in order])
+			r = consensus_taxon(arg)
 			impl = (None if r[0] is None else index[id(r[0])], sorted(index[id(t)] for t in r[1]))
+			if again and kind != 'list':
+				# a caller-supplied object used for a second call: the consensus is a function of the set
+				r2 = consensus_taxon(arg)
+				impl2 = (None if r2[0] is None else index[id(r2[0])], sorted(index[id(t)] for t in r2[1]))
 		except Exception as e:  # noqa
 			impl = f'{type(e).__name__}: {e}'
 		distinct = len(set(order))
@@ -150,6 +229,8 @@ def k_consensus(ctx, cases):
 			ctx.count('shape:three-level-conflict')
 		if len(order) != distinct:
 			ctx.count('shape:with-repetitions')
+		if kind != 'list':
+			ctx.count('container:' + kind)
 		py = _py_spec(paths, order)
 		if ans is not None:
 			m = ans[3 * n]
@@ -163,12 +244,18 @@ def k_consensus(ctx, cases):
 		else:
 			model = model_v0 = None
 			spec = py
+		how = '' if kind == 'list' else f' (handed over as a {kind}, iterated as {_names(c["parents"], seen)})'
 		if impl != spec:
 			ctx.violation('consensus', c,
-			              f'consensus_taxon({_names(c["parents"], order)}) on parents={c["parents"]} returns {_show(impl)}; the consensus '
+			              f'consensus_taxon({_names(c["parents"], order)}){how} on parents={c["parents"]} returns {_show(impl)}; the consensus '
 			              f'of this set of matched taxa (lowest common ancestor of its most specific members, which does not '
 			              f'depend on their order) is {_show(spec)}',
 			              impl=impl, spec=spec, model=model, model_of_algorithm_as_found=model_v0)
+		elif impl2 is not None and impl2 != spec:
+			ctx.violation('consensus', c,
+			              f'consensus_taxon called a second time with the same {kind} object of {_names(c["parents"], order)} on '
+			              f'parents={c["parents"]} returns {_show(impl2)}; the consensus of this set is {_show(spec)}',
+			              impl=impl2, spec=spec, model=model)
 		elif model is not None and model != impl:
 			ctx.broke('correspondence consensus (model of repaired consensus_taxon vs implementation)',
 			          f'case {c}: impl={impl} model={model}')
@@ -187,6 +274,51 @@ def _show(r):
 _WARN = re.compile(r'^Query matched (\d+) inconsistent taxa: (.*)\. Reporting lowest common ancestor of this set\.$')
 
 
+_LAYOUTS = ('f64', 'f32', 'f16', 'be32', 'be64', 'strided', 'reversed', 'column', 'readonly')
+
+
+def _dists_array(vals, layout):
+	"""the distance array in one of the forms a caller may hold it in: dtype (float64/32/16, non-native byte order),
+	non-contiguous views whose skipped cells hold decoys (0.0 = nearer than everything), read-only"""
+	import numpy as np
+	n = len(vals)
+	if layout in ('f64', 'f32', 'f16'):
+		return np.array(vals, dtype={'f64': np.float64, 'f32': np.float32, 'f16': np.float16}[layout])
+	if layout == 'be32':
+		return np.array(vals, dtype='>f4')
+	if layout == 'be64':
+		return np.array(vals, dtype='>f8')
+	if layout == 'strided':
+		base = np.zeros(2 * n + 1, dtype=np.float32)
+		base[1::2] = vals
+		return base[1::2]
+	if layout == 'reversed':
+		base = np.array(vals[::-1], dtype=np.float64)
+		return base[::-1]
+	if layout == 'column':
+		m = np.zeros((n, 3), dtype=np.float32)
+		m[:, 1] = vals
+		return m[:, 1]
+	if layout == 'readonly':
+		a = np.array(vals, dtype=np.float32)
+		a.flags.writeable = False
+		return a
+	raise ValueError('bad layout')
+
+
+def _warn_parse(w, reprs):
+	"""None if w is not the inconsistency warning, else (count, names part is a ', '-joined arrangement of reprs)"""
+	mo = re.match(r'^Query matched (\d+) inconsistent taxa: (.*)\. Reporting lowest common ancestor of this set\.$', w, re.S)
+	if not mo:
+		return None
+	part = mo.group(2)
+	if len(reprs) <= 6:
+		ok = any(', '.join(p) == part for p in itertools.permutations(reprs))
+	else:
+		ok = part == ', '.join(sorted(reprs))
+	return int(mo.group(1)), ok
+
+
 def k_classify(ctx, cases):
 	import numpy as np
 	from gambit.classify import classify, matching_taxon, find_matches
@@ -196,61 +328,115 @@ def k_classify(ctx, cases):
 	for c in cases:
 		paths = _paths(c['parents'])
 		thr = c['thr']
-		if len(thr) != len(paths) or not c['genomes']:
+		den = c.get('den', 16)
+		o = c.get('opts') or {}
+		if len(thr) != len(paths) or not c['genomes'] or not isinstance(den, int) or den < 1:
 			raise ValueError('bad case')
-		glist = []
-		matched = []
+		if any(t is not None and t < 0 for t in thr):
+			raise ValueError('bad threshold')
+		layout = o.get('layout') or ('f32' if c.get('f32') else 'f64')
 		for t, d in c['genomes']:
 			if not (0 <= t < len(paths)) or d < 0:
 				raise ValueError('bad genome')
-			glist.append([[[i, None if thr[i] is None else [thr[i]]] for i in paths[t]], d])
+		dists = _dists_array([d / den for t, d in c['genomes']], layout)
+		# the exact real numbers the implementation is given (float16/32/64 -> double conversion is exact)
+		dv = [float(x) for x in dists]
+		tv = [None if t is None else t / den for t in thr]
+		glist = []
+		matched = []
+		for i, (t, d) in enumerate(c['genomes']):
+			glist.append([[[a, None if thr[a] is None else [thr[a]]] for a in paths[t]], d])
 			mt = None
 			for a in reversed(paths[t]):
-				if thr[a] is not None and d <= thr[a]:
+				if tv[a] is not None and dv[i] <= tv[a]:
 					mt = a
 					break
+			if den == 16:
+				mi = None
+				for a in reversed(paths[t]):
+					if thr[a] is not None and d <= thr[a]:
+						mi = a
+						break
+				if mi != mt:
+					raise RuntimeError('harness: sixteenths are not exact here')
 			matched.append(mt)
 		mset = sorted({m for m in matched if m is not None})
-		prepared.append((paths, matched, mset))
-		reqs += [(1004, glist), (1003, [paths[i] for i in mset]), (1007, glist)]
+		prepared.append((paths, matched, mset, dists, dv, den, o, layout, len(reqs)))
+		# the model works on integer sixteenths; other denominators are judged by the specification of the matched set
+		# (computed above with exact comparisons) and the property predicate only
+		reqs += [(1003, [paths[i] for i in mset])]
+		if den == 16:
+			reqs += [(1004, glist), (1007, glist)]
 	ans = ctx.model(reqs) if ctx.model_ok else None
 	for n, c in enumerate(cases):
-		paths, matched, mset = prepared[n]
-		taxa = _taxa(c['parents'], c['thr'])
+		paths, matched, mset, dists, dv, den, o, layout, off = prepared[n]
+		names = o.get('names')
+		taxa = _taxa(c['parents'], c['thr'], den, names)
 		index = {id(t): i for i, t in enumerate(taxa)}
-		gs = [AnnotatedGenome(taxon=taxa[t], genome=Genome(key=f'g{i}', description=f'g{i}'))
-		      for i, (t, d) in enumerate(c['genomes'])]
-		gindex = {id(g): i for i, g in enumerate(gs)}
-		dists = np.array([d / 16 for t, d in c['genomes']], dtype=np.float32 if c.get('f32') else np.float64)
+		if o.get('alias'):
+			# one AnnotatedGenome object per taxon, listed once for every reference entry of that taxon
+			per = {}
+			gs = []
+			for i, (t, d) in enumerate(c['genomes']):
+				if t not in per:
+					per[t] = AnnotatedGenome(taxon=taxa[t], genome=Genome(key=f'g{i}', description=f'g{i}'))
+				gs.append(per[t])
+		else:
+			gs = [AnnotatedGenome(taxon=taxa[t], genome=Genome(key=f'g{i}', description=f'g{i}'))
+			      for i, (t, d) in enumerate(c['genomes'])]
+		refs = tuple(gs) if o.get('refs') == 'tuple' else gs
+		strict = {None: True, 'True': True, 'np': np.True_, 'one': 1}[o.get('strict')]
 		ctx.case(c, nontrivial=len(mset) >= 2)
 		if _three_level(paths, mset):
 			ctx.count('shape:three-level-conflict')
+		if o:
+			for k_ in sorted(o):
+				ctx.count(f'classify-opt:{k_}={o[k_] if k_ != "names" else "unusual"}')
 		py = _py_spec(paths, mset)
 		spec = py
 		if ans is not None:
-			spec = _dec_cons(ans[3 * n + 1])
+			spec = _dec_cons(ans[off])
 			if spec != py:
 				ctx.broke('extracted specification vs python oracle (classify)', f'case {c}: spec={spec} python={py}')
 				continue
 		cons, others = spec
+		if names is not None and others:
+			ctx.count('shape:unusual-names-in-a-warning')
+		if den != 16 and len(mset) >= 2:
+			ctx.count('shape:real-distances-two-or-more-matched-taxa')
+		if den != 16 and any(tv_ is not None and x == tv_ for x in dv for tv_ in (None if t is None else t / den for t in c['thr'])):
+			ctx.count('shape:real-distance-exactly-on-a-threshold')
 
 		def bad(what, **kw):
-			ctx.violation('classify', c, f'classify(strict=True) on parents={c["parents"]} thr/16={c["thr"]} '
-			              f'genomes(taxon,16*d)={c["genomes"]}: ' + what, **kw)
+			ctx.violation('classify', c, f'classify(strict=True) on parents={c["parents"]} thr/{den}={c["thr"]} '
+			              f'genomes(taxon,{den}*d)={c["genomes"]}' + (f' options={ {k: v for k, v in o.items() if k != "names"} }' if o else '')
+			              + ': ' + what, **kw)
 
 		# -- each genome matches the most specific covering threshold-bearing taxon of its lineage
 		ok = True
+		sc = o.get('scalar')
 		for i, (t, d) in enumerate(c['genomes']):
-			r = matching_taxon(taxa[t], dists[i])
+			x = dists[i]
+			if sc == 'py':
+				x = dv[i]
+			elif sc == 'int' and d % den == 0:
+				x = d // den
+			r = matching_taxon(taxa[t], x)
 			r = None if r is None else index[id(r)]
 			if r != matched[i]:
-				bad(f'matching_taxon(t{t}, {d}/16) = {r}, the most specific taxon of the lineage whose threshold covers '
-				    f'the distance is {matched[i]}', impl=r, spec=matched[i])
+				bad(f'matching_taxon(t{t}, {d}/{den} as {type(x).__name__}) = {r}, the most specific taxon of the lineage whose '
+				    f'threshold covers the distance is {matched[i]}', impl=r, spec=matched[i])
 				ok = False
 				break
 		if not ok:
 			continue
-		fm = find_matches(zip(gs, dists))
+		fmk = o.get('fm')
+		if fmk == 'list':
+			fm = find_matches([(g, x) for g, x in zip(gs, dists)])
+		elif fmk == 'gen':
+			fm = find_matches((g, x) for g, x in zip(gs, dv))
+		else:
+			fm = find_matches(zip(gs, dists))
 		fm_i = {index[id(k)]: sorted(v) for k, v in fm.items()}
 		fm_spec = {}
 		for i, m in enumerate(matched):
@@ -261,29 +447,47 @@ def k_classify(ctx, cases):
 			continue
 
 		try:
-			r = classify(gs, dists, strict=True)
+			r = classify(refs, dists, strict=strict)
+			r_again = classify(refs, dists, strict=strict) if o.get('reuse') else None
 		except Exception as e:  # noqa
 			bad(f'raises {type(e).__name__}: {e}', impl=f'{type(e).__name__}')
 			continue
-		pred = None if r.predicted_taxon is None else index[id(r.predicted_taxon)]
-		warned = None
-		for w in r.warnings:
-			mo = _WARN.match(w)
-			if mo:
-				names = [] if not mo.group(2) else mo.group(2).split(', ')
-				warned = (int(mo.group(1)), sorted(int(x.split(':', 1)[1][1:]) for x in names))
-		pm = r.primary_match
-		primary = None if pm is None else (gindex[id(pm.genome)], float(pm.distance) * 16,
-		                                   None if pm.matched_taxon is None else index[id(pm.matched_taxon)])
+
+		def observe(r):
+			pred = None if r.predicted_taxon is None else index[id(r.predicted_taxon)]
+			warned = None
+			for w in r.warnings:
+				if names is None:
+					mo = _WARN.match(w)
+					if mo:
+						nm = [] if not mo.group(2) else mo.group(2).split(', ')
+						warned = (int(mo.group(1)), sorted(int(x.split(':', 1)[1][1:]) for x in nm))
+				else:
+					# unusual names: the taxa are recognised by their short_repr() '<id>:<name>', in any arrangement
+					wp = _warn_parse(w, [f'{i}:{names[i]}' for i in others])
+					if wp is not None:
+						warned = (wp[0], others if wp[1] else 'other taxa than ' + repr(others))
+			pm = r.primary_match
+			primary = None
+			if pm is not None:
+				pd = float(pm.distance)
+				gi = [i for i, g in enumerate(gs) if g is pm.genome]
+				pi = min(gi, key=lambda i: abs(dv[i] - pd))     # (one object listed several times: the entry it stands for)
+				primary = (pi, pd * 16 if den == 16 else pd, None if pm.matched_taxon is None else index[id(pm.matched_taxon)])
+			return pred, warned, primary
+
+		pred, warned, primary = observe(r)
+		dref = (lambda i: c['genomes'][i][1]) if den == 16 else (lambda i: dv[i])
 		impl = dict(success=bool(r.success), predicted=pred, primary=primary, warned=warned, error=r.error)
 		exp_success = not (mset and cons is None)
 		cands = [] if cons is None else [i for i, m in enumerate(matched)
 		                                 if m is not None and _is_prefix(paths[cons], paths[m])]
-		exp_d = min((c['genomes'][i][1] for i in cands), default=None)
-		specv = dict(success=exp_success, predicted=cons, others=others, primary_distance_x16=exp_d)
+		exp_d = min((dref(i) for i in cands), default=None)
+		specv = dict(success=exp_success, predicted=cons, others=others,
+		             **{'primary_distance_x16' if den == 16 else 'primary_distance': exp_d})
 		model = None
-		if ans is not None:
-			m = ans[3 * n]
+		if ans is not None and den == 16:
+			m = ans[off + 1]
 			if m[0] == 0:
 				s_, p_, b_, o_ = m[1]
 				model = dict(success=bool(s_), predicted=p_[0][-1] if p_ else None,
@@ -300,16 +504,27 @@ def k_classify(ctx, cases):
 			bad(f'warning names {warned}, the matched taxa strictly below the prediction are {others}', **vals)
 		elif (primary is None) != (cons is None):
 			bad(f'primary match {primary} with prediction {cons}', **vals)
-		elif primary is not None and (primary[0] not in cands or primary[1] != c['genomes'][primary[0]][1]
-		                              or primary[1] != exp_d or primary[2] != matched[primary[0]]):
+		elif primary is not None and den == 16 and (primary[0] not in cands or primary[1] != dref(primary[0])
+		                                            or primary[1] != exp_d or primary[2] != matched[primary[0]]):
 			bad(f'primary match (genome, 16*d, taxon) = {primary} is not a nearest genome among those matched at or below '
 			    f'the prediction (genomes {cands}, least distance {exp_d}/16)', **vals)
-		elif isinstance(model, dict):
+		elif primary is not None and den != 16 and (primary[0] not in cands or dref(primary[0]) != exp_d
+		                                            or abs(primary[1] - exp_d) > 1e-6 * max(1.0, exp_d)
+		                                            or primary[2] != matched[primary[0]]):
+			# arbitrary reals: the genome must be a nearest one by the distances handed over; the distance it is reported
+			# with is only required to agree to float32 accuracy (the property does not fix its representation)
+			bad(f'primary match (genome, {"16*" if den == 16 else ""}d, taxon) = {primary} is not a nearest genome among those matched at or below '
+			    f'the prediction (genomes {cands}, least distance {exp_d}{"/16" if den == 16 else ""})', **vals)
+		elif r_again is not None and (observe(r_again)[:2] != (pred, warned) or bool(r_again.success) != bool(r.success)
+		                              or (observe(r_again)[2] or (0, None))[1] != (primary or (0, None))[1]):
+			bad(f'a second classify call on the same reference list and distance array gives prediction/warning/primary distance '
+			    f'{observe(r_again)} after {(pred, warned, primary)}', **vals)
+		elif isinstance(model, dict) and not o.get('alias'):
 			mi = dict(success=impl['success'], predicted=pred, primary=primary, others=[] if warned is None else warned[1])
 			if mi != model:
 				ctx.broke('correspondence classify (model of repaired strict classify vs implementation)',
 				          f'case {c}: impl={mi} model={model}')
-		elif model is not None:
+		elif model is not None and not isinstance(model, dict):
 			ctx.broke('correspondence classify (model returned an error outcome)', f'case {c}: model={model}')
 
 
@@ -443,7 +658,281 @@ def k_cli(ctx, cases):
 			    f'the prediction (genomes {cands}, least distance {exp_d}/16)', **vals)
 
 
-KINDS = {'consensus': k_consensus, 'classify': k_classify, 'cli': k_cli}
+# ---------------------------------------------------------------------------------------------
+# kind: query  --  the public Python entry points that reach classify(strict=True) with database-loaded (persistent)
+# ORM objects: ReferenceDatabase.load / load_from_dir + gambit.query.query(params=QueryParams(classify_strict=True) or
+# classify_strict=True, chunksize=...), several queries in one call; then the command line on the same database with a
+# query signature file holding all queries, or with FASTA files (positional / -l list file), -c, --no-progress.
+# Distances are Jaccard distances 1 - min(m,n)/max(m,n) of nested k-mer sets (mostly NOT multiples of 1/16), so this
+# kind is outside the integer model: it is judged by the specification of the matched set (python oracle, and the
+# extracted specification on the set) and the property predicate only.
+
+_QK, _QPREFIX = 5, 'ATGAC'      # k >= 5: a narrower k-mer index type (uint8) is not accepted by the distance kernel
+
+
+def _q_universe():
+	"""the 16 smallest 5-mers over {C,G}: with prefix ATGAC a contig 'ATGAC'+w holds exactly one prefix occurrence on either
+	strand (w has no A/T, the reverse complement GTCAT of the prefix cannot occur); index = base-4 number, ACGT=0123"""
+	ws = [''.join(w) for w in itertools.product('CG', repeat=_QK)]
+	idx = {w: sum('ACGT'.index(ch) * 4 ** (_QK - 1 - i) for i, ch in enumerate(w)) for w in ws}
+	ws.sort(key=lambda w: idx[w])
+	ws = ws[:16]
+	return ws, [idx[w] for w in ws]
+
+
+def _build_qdb(d, c):
+	import os
+	import numpy as np
+	from sqlalchemy import create_engine
+	from sqlalchemy.orm import Session
+	from gambit.db.models import Base, ReferenceGenomeSet, Taxon, Genome, AnnotatedGenome
+	from gambit.sigs import SignatureList, SignaturesMeta, dump_signatures, AnnotatedSignatures
+	from gambit.kmers import KmerSpec
+	ws, U = _q_universe()
+	os.makedirs(d)
+	eng = create_engine('sqlite:///' + os.path.join(d, 'db.gdb'))
+	Base.metadata.create_all(eng)
+	s = Session(eng)
+	gset = ReferenceGenomeSet(key='verif/c10q', version='1.0', name='c10q')
+	s.add(gset)
+	taxa = []
+	for i, p in enumerate(c['parents']):
+		taxa.append(Taxon(key=f'tk{i}', name=f't{i}', genome_set=gset, parent=taxa[p] if p >= 0 else None,
+		                  distance_threshold=None if c['thr'][i] is None else c['thr'][i] / 16))
+	s.add_all(taxa)
+	for i, (t, m) in enumerate(c['refs']):
+		s.add(AnnotatedGenome(genome_set=gset, genome=Genome(key=f'g{i}', description=f'genome {i}'), taxon=taxa[t],
+		                      organism=f'org{i}'))
+	s.commit()
+	s.close()
+	eng.dispose()
+	ks = KmerSpec(_QK, _QPREFIX)
+	dt = np.dtype(c.get('rdtype', 'u2'))
+	sigs, ids = [], []
+	for pos, r in enumerate(c['sigorder']):
+		if r >= 0:
+			sigs.append(np.array(U[:c['refs'][r][1]], dtype=dt))
+			ids.append(f'g{r}')
+		else:
+			# a signature of no genome of the set; identical to the whole query universe (distance 0 to the largest query)
+			sigs.append(np.array(U[:16 + r + 1] if r < -1 else U, dtype=dt))
+			ids.append(f'x{pos}')
+	refs = AnnotatedSignatures(SignatureList(sigs, ks, dtype=dt), ids, SignaturesMeta(id='c10q', id_attr='key'))
+	dump_signatures(os.path.join(d, 'refs.gs'), refs, 'hdf5')
+	return ks, ws, U
+
+
+def _q_judge(bad, where, paths, matched, mset, cons, others, dex, obs):
+	"""the property predicate on one observed result: obs = dict(success, error, pred, warned, primary=(genome, d, taxon))"""
+	exp_success = not (mset and cons is None)
+	cands = [] if cons is None else [i for i, m in enumerate(matched) if m is not None and _is_prefix(paths[cons], paths[m])]
+	exp_d = min((dex[i] for i in cands), default=None)
+	vals = dict(impl=obs, spec=dict(success=exp_success, predicted=cons, others=others,
+	                                primary_distance=None if exp_d is None else str(exp_d)))
+	pred, warned, primary = obs['pred'], obs['warned'], obs['primary']
+	if pred != cons:
+		bad(f'{where}: predicted taxon {pred}, the consensus of the matched taxa {mset} is {cons}', **vals)
+	elif bool(obs['success']) != exp_success or (obs['error'] is None) != exp_success:
+		bad(f'{where}: success={obs["success"]} error={obs["error"]!r}, expected success={exp_success}', **vals)
+	elif (warned is None) != (not others) or (warned is not None and (warned[1] != others or warned[0] != len(others))):
+		bad(f'{where}: warning names {warned}, the matched taxa strictly below the prediction are {others}', **vals)
+	elif (primary is None) != (cons is None):
+		bad(f'{where}: primary match {primary} with prediction {cons}', **vals)
+	elif primary is not None and (primary[0] not in cands or dex[primary[0]] != exp_d or abs(primary[1] - float(exp_d)) > 1e-6
+	                              or primary[2] != matched[primary[0]]):
+		bad(f'{where}: primary match (genome, d, taxon) = {primary} is not a nearest genome among those matched at or below '
+		    f'the prediction (genomes {cands}, least distance {exp_d})', **vals)
+	else:
+		return True
+	return False
+
+
+def _q_warned(warnings):
+	warned = None
+	for w in warnings:
+		mo = _WARN.match(w)
+		if mo:
+			nm = [] if not mo.group(2) else mo.group(2).split(', ')
+			warned = (int(mo.group(1)), sorted(int(x.split(':', 1)[1][1:]) for x in nm))
+	return warned
+
+
+def k_query(ctx, cases):
+	import json
+	import os
+	import shutil
+	from fractions import Fraction
+	import numpy as np
+	from click.testing import CliRunner
+	import gambit.cli
+	from gambit.db import ReferenceDatabase
+	from gambit.query import query, QueryParams
+	from gambit.sigs import SignatureList, SignatureArray, SignaturesMeta, AnnotatedSignatures, dump_signatures
+	from vf import impl as vimpl
+	if _scratch[0] is None:
+		_scratch[0] = vimpl.scratch_dir('gambit-verif-c10-')
+	for c in cases:
+		paths = _paths(c['parents'])
+		thr = c['thr']
+		nref = len(c['refs'])
+		if len(thr) != len(paths) or not c['refs'] or not c['queries']:
+			raise ValueError('bad case')
+		if sorted(r for r in c['sigorder'] if r >= 0) != list(range(nref)):
+			raise ValueError('bad signature order')
+		if any(not (0 <= t < len(paths)) or not (1 <= m <= 16) for t, m in c['refs']) or any(not (1 <= q <= 16) for q in c['queries']):
+			raise ValueError('bad sizes')
+		# expected per query, exact rationals
+		exp = []
+		nontrivial = False
+		for q in c['queries']:
+			dex = [1 - Fraction(min(m, q), max(m, q)) for t, m in c['refs']]
+			matched = []
+			for (t, m), d in zip(c['refs'], dex):
+				mt = None
+				for a in reversed(paths[t]):
+					if thr[a] is not None and d <= Fraction(thr[a], 16):
+						mt = a
+						break
+				matched.append(mt)
+			mset = sorted({m for m in matched if m is not None})
+			cons, others = _py_spec(paths, mset)
+			exp.append((dex, matched, mset, cons, others))
+			if others:
+				ctx.count('shape:query-with-conflict-warning')
+			if any(d.denominator not in (1, 2, 4, 8, 16) for d in dex):
+				ctx.count('shape:query-with-non-dyadic-distances')
+			nontrivial = nontrivial or len(mset) >= 2
+			if _three_level(paths, mset):
+				ctx.count('shape:three-level-conflict')
+		if ctx.model_ok:
+			ans = ctx.model([(1003, [paths[i] for i in e[2]]) for e in exp])
+			for e, a in zip(exp, ans):
+				if _dec_cons(a) != (e[3], e[4]):
+					ctx.broke('extracted specification vs python oracle (query)', f'case {c}: spec={_dec_cons(a)} python={(e[3], e[4])}')
+		ctx.case(c, nontrivial=nontrivial)
+		_scratch[1] += 1
+		d = os.path.join(_scratch[0], f'qdb{_scratch[1]}')
+		ks, ws, U = _build_qdb(d, c)
+		api = c.get('api') or {}
+		cli = c.get('cli') or {}
+
+		def bad(what, **kw):
+			ctx.violation('query', c, f'database with parents={c["parents"]} thr/16={c["thr"]} reference genomes (taxon, number of '
+			              f'k-mers)={c["refs"]}, signature file order {c["sigorder"]}, queries with {c["queries"]} k-mers (nested sets, '
+			              f'distance 1-min/max): ' + what, **kw)
+
+		try:
+			# ---- Python API
+			qdt = np.dtype(api.get('qdtype', 'u2'))
+			qs = [np.array(U[:q], dtype=qdt) for q in c['queries']]
+			qc = api.get('qcontainer', 'list')
+			if qc == 'siglist':
+				qs = SignatureList(qs, ks, dtype=qdt)
+			elif qc == 'sigarray':
+				qs = SignatureArray(qs, ks, dtype=qdt)
+			elif qc == 'tuple':
+				qs = tuple(qs)
+			if api.get('load') == 'dir':
+				db = ReferenceDatabase.load_from_dir(d)
+			else:
+				db = ReferenceDatabase.load(os.path.join(d, 'db.gdb'), os.path.join(d, 'refs.gs'))
+			try:
+				chunk = api.get('chunksize', 1000)
+				if api.get('form') == 'kw':
+					res = query(db, qs, classify_strict=True, chunksize=chunk)
+				elif api.get('form') == 'positional':
+					res = query(db, qs, QueryParams(True, chunk))
+				else:
+					res = query(db, qs, QueryParams(classify_strict=True, chunksize=chunk), inputs=[f'q{j}' for j in range(len(c['queries']))])
+				ctx.count('stream-part:query-api', len(res.items))
+				okall = len(res.items) == len(c['queries'])
+				if not okall:
+					bad(f'gambit.query.query returns {len(res.items)} items for {len(c["queries"])} queries')
+				for j, item in enumerate(res.items if okall else []):
+					r = item.classifier_result
+					pm = r.primary_match
+					obs = dict(success=bool(r.success), error=r.error,
+					           pred=None if r.predicted_taxon is None else int(r.predicted_taxon.key[2:]),
+					           warned=_q_warned(r.warnings),
+					           primary=None if pm is None else (int(pm.genome.key[1:]), float(pm.distance),
+					                                            None if pm.matched_taxon is None else int(pm.matched_taxon.key[2:])))
+					dex, matched, mset, cons, others = exp[j]
+					if not _q_judge(bad, f'gambit.query.query({api}) item {j} (query with {c["queries"][j]} k-mers)', paths, matched, mset,
+					                cons, others, dex, obs):
+						okall = False
+						break
+			finally:
+				db.session.close()
+				try:
+					db.session.get_bind().dispose()
+				except Exception:  # noqa
+					pass
+				if hasattr(db.signatures, 'close'):
+					db.signatures.close()
+			# ---- command line on the same database
+			if okall and cli.get('input'):
+				args = ['-d', d, 'query', '--strict']
+				if cli['input'] == 'sig':
+					sigf = os.path.join(d, 'query.qs')
+					dump_signatures(sigf, AnnotatedSignatures(SignatureList([np.array(U[:q], dtype=np.uint16) for q in c['queries']], ks,
+					                                                        dtype=np.uint16),
+					                                          [f'q{j}' for j in range(len(c['queries']))], SignaturesMeta(id='q')), 'hdf5')
+					args += ['-s', sigf]
+				else:
+					files = []
+					rs = __import__('random').Random(len(c['refs']) * 131 + sum(c['queries']))
+					for j, q in enumerate(c['queries']):
+						fn = os.path.join(d, f'q{j}.fa')
+						order = list(range(q))
+						rs.shuffle(order)
+						with open(fn, 'w') as f:
+							for n_, i in enumerate(order):
+								seq = _QPREFIX + ws[i]
+								f.write(f'>contig{n_} k-mer {i}\n{seq.lower() if (i + j) % 5 == 0 else seq}\n')
+						files.append(fn)
+					if cli['input'] == 'fasta':
+						tail = files
+					else:
+						lf = os.path.join(d, 'list.txt')
+						with open(lf, 'w') as f:
+							f.write(''.join(os.path.basename(x) + '\n' for x in files))
+						tail = ['-l', lf, '--ldir', d]
+				out = os.path.join(d, 'out.json')
+				args += ['-f', 'archive', '-o', out]
+				if cli.get('cores'):
+					args += ['-c', str(cli['cores'])]
+				if cli.get('noprogress'):
+					args += ['--no-progress']
+				if cli['input'] != 'sig':
+					args += tail
+				r = CliRunner().invoke(gambit.cli.cli, args)
+				ctx.count('stream-part:query-cli-' + cli['input'], len(c['queries']))
+				if r.exit_code != 0 or not os.path.exists(out):
+					bad(f'gambit {" ".join(args[2:])}: exit code {r.exit_code}: {r.exception!r}', impl=str(r.exception))
+				else:
+					items = json.load(open(out))['items']
+					if len(items) != len(c['queries']):
+						bad(f'gambit {" ".join(args[2:])}: {len(items)} items for {len(c["queries"])} queries')
+						items = []
+					for j, it in enumerate(items):
+						cr = it['classifier_result']
+						pm = cr['primary_match']
+						obs = dict(success=cr['success'], error=cr['error'],
+						           pred=None if cr['predicted_taxon'] is None else int(cr['predicted_taxon']['key'][2:]),
+						           warned=_q_warned(cr['warnings']),
+						           primary=None if pm is None else (int(pm['genome']['key'][1:]), float(pm['distance']),
+						                                            None if pm['matched_taxon'] is None else int(pm['matched_taxon']['key'][2:])))
+						dex, matched, mset, cons, others = exp[j]
+						if not _q_judge(bad, f'gambit query --strict -f archive ({cli}) item {j} (query with {c["queries"][j]} k-mers)',
+						                paths, matched, mset, cons, others, dex, obs):
+							break
+		finally:
+			shutil.rmtree(d, ignore_errors=True)
+
+
+KINDS = {'consensus': k_consensus, 'classify': k_classify, 'cli': k_cli, 'query': k_query}
+# 'query' has no Coq model behind it (see its header): it is not listed as a model/implementation correspondence
+CORRESPONDENCES = ['classify', 'cli', 'consensus']
 
 
 # ---------------------------------------------------------------------------------------------
@@ -486,6 +975,57 @@ def _rand_thr(rng, parents):
 		else:
 			thr.append(rng.randint(0, 16))
 	return thr
+
+
+def _three_level_forest(a, b, j, c):
+	"""chain 0..a-1 from a root down to X = a-1; a chain of b taxa below X ending in Y; a chain of c taxa hanging off
+	node j <= a-2 ending in Z (so Z is incomparable with X, their lowest common ancestor is j).  a >= 2."""
+	parents = [-1] + list(range(a - 1))
+	x = a - 1
+	p = x
+	for _ in range(b):
+		parents.append(p)
+		p = len(parents) - 1
+	y = p
+	p = j
+	for _ in range(c):
+		parents.append(p)
+		p = len(parents) - 1
+	return parents, x, y, p
+
+
+def _structured_orders(rng, paths, sel):
+	"""orders that are adversarial for a single left-to-right scan"""
+	asc = sorted(sel)                                   # parents before children (parent index < own index)
+	by_depth = sorted(sel, key=lambda i: (len(paths[i]), i))
+	by_tree = sorted(sel, key=lambda i: paths[i])      # depth-first: every lineage contiguous
+	half = len(asc) // 2
+	inter = [x for pr in zip(asc[:half], asc[::-1][:half]) for x in pr] + asc[half:len(asc) - half]
+	rot = asc[half:] + asc[:half]
+	return [asc, asc[::-1], by_depth, by_depth[::-1], by_tree, by_tree[::-1], inter, rot]
+
+
+_ODD_NAMES = ['a, b', '1:x', '', 'Escherichia coli', 'coli, Escherichia', 'é字', 't1', 't1', '. Reporting lowest common ancestor of this set.',
+              'x\ny', 'None', ', ', ':', 'Query matched 2 inconsistent taxa: 0:t0, 1:t1', ' lead', 'trail ']
+
+
+def _rand_opts(rng, genomes, den):
+	o = {}
+	if rng.random() < 0.8:
+		o['layout'] = rng.choice(_LAYOUTS)
+	if rng.random() < 0.3:
+		o['refs'] = 'tuple'
+	if rng.random() < 0.3:
+		o['strict'] = rng.choice(['np', 'one'])
+	if rng.random() < 0.4:
+		o['scalar'] = rng.choice(['py', 'int'])
+	if rng.random() < 0.4:
+		o['fm'] = rng.choice(['list', 'gen'])
+	if rng.random() < 0.25:
+		o['alias'] = True
+	if rng.random() < 0.4:
+		o['reuse'] = True
+	return o
 
 
 def generate(ctx):
@@ -577,3 +1117,214 @@ def generate(ctx):
 			rng.shuffle(genomes)
 			ctx.count('stream:cli-random')
 			yield 'cli', dict(parents=parents, thr=thr, genomes=[list(x) for x in genomes])
+	# =============================================================================================
+	# streams added by the coverage audit (see the table in the module docstring)
+	# ---- consensus_taxon handed other iterables than a list (it is documented for any iterable; classify passes
+	#      dict.keys()): tuple, set, frozenset, dict view, dict, generator, one-shot iterator; empty, single, repeated
+	for _ in range(ctx.pick(130, 1200)):
+		n = rng.randint(1, 10)
+		parents = _rand_forest(rng, n)
+		k = rng.choice([0, 1, 1, 2, 3, 3, 4, 5, 6])
+		sel = [rng.randrange(n) for _ in range(k)] if rng.random() < 0.3 else rng.sample(range(n), min(k, n))
+		for kind in _CONTAINERS[1:]:
+			ctx.count('stream:consensus-containers')
+			yield 'consensus', dict(parents=parents, order=list(sel), container=kind)
+	# ---- structured orders of larger matched sets: ancestors first, descendants first, by depth, lineage by lineage,
+	#      interleaved from both ends, rotated
+	for _ in range(ctx.pick(260, 2500)):
+		n = rng.randint(6, 18)
+		parents = _rand_forest(rng, n)
+		paths = _paths(parents)
+		sel = rng.sample(range(n), rng.randint(3, min(n, 11)))
+		for order in _structured_orders(rng, paths, sel):
+			ctx.count('stream:consensus-structured-orders')
+			yield 'consensus', dict(parents=parents, order=order)
+	# ---- size classes: large forests (deep chains with side branches, wide stars, random), large matched sets
+	for _ in range(ctx.pick(120, 1200)):
+		style = rng.randrange(3)
+		n = rng.randint(30, 120)
+		if style == 0:      # a deep spine with short side branches
+			parents = [-1]
+			spine = 0
+			for i in range(1, n):
+				if rng.random() < 0.6:
+					parents.append(spine)
+					spine = i
+				else:
+					parents.append(rng.choice([spine, max(0, spine - 1), rng.randrange(i)]))
+		elif style == 1:    # wide: a few genera with many species, some subspecies
+			parents = [-1] + [rng.choice([0, 0, -1]) for _ in range(4)]
+			for i in range(5, n):
+				parents.append(rng.randrange(5) if rng.random() < 0.7 else rng.randrange(5, i) if i > 5 else 0)
+		else:
+			parents = _rand_forest(rng, n)
+		k = rng.randint(10, 40)
+		sel = rng.sample(range(n), min(k, n)) if rng.random() < 0.8 else [rng.randrange(n) for _ in range(k)]
+		paths = _paths(parents)
+		orders = [list(sel), sorted(sel), sorted(sel, reverse=True), sorted(sel, key=lambda i: (-len(paths[i]), i))]
+		rng.shuffle(orders[0])
+		for order in orders:
+			ctx.count('stream:consensus-large')
+			yield 'consensus', dict(parents=parents, order=order)
+	# ---- three-level conflicts in general position: {X, a strict descendant Y any number of levels below, Z incomparable
+	#      with X branching off any ancestor of X at any depth}, optionally with the consensus itself, a higher ancestor,
+	#      a second branch below X, a taxon of another tree; every order (5 members: 24 sampled orders)
+	shapes = [(a, b, j, c) for a in (2, 3) for b in (1, 2) for j in range(a - 1) for c in (1, 2)]
+	for _ in range(ctx.pick(16, 300)):
+		a = rng.randint(2, 6)
+		shapes.append((a, rng.randint(1, 4), rng.randrange(a - 1), rng.randint(1, 4)))
+	tl = []
+	for a, b, j, c in shapes:
+		parents, x, y, z = _three_level_forest(a, b, j, c)
+		extras = [j]                                   # the expected consensus, matched directly
+		if j > 0:
+			extras.append(rng.randrange(j))            # an ancestor of the consensus
+		parents = parents + [x, -1]                    # W: a second branch below X; V: another tree
+		extras += [len(parents) - 2, len(parents) - 1]
+		tl.append((parents, x, y, z, extras))
+		for ne in (0, 1, 2):
+			for ex in itertools.combinations(extras, ne):
+				members = [x, y, z] + list(ex)
+				perms = list(itertools.permutations(members))
+				if len(perms) > 24:
+					perms = rng.sample(perms, 24)
+				for order in perms:
+					ctx.count('stream:consensus-three-level-general')
+					yield 'consensus', dict(parents=parents, order=list(order))
+	# ---- the same shapes through classify: thresholds that make exactly the chosen taxa match, genomes assigned to the
+	#      matched taxon or to a threshold-less / tighter taxon below it, extra unmatched (sometimes nearest) genomes
+	for parents, x, y, z, extras in tl:
+		n = len(parents)
+		for _ in range(ctx.pick(2, 6)):
+			ex = rng.sample(extras, rng.choice([0, 0, 1, 1, 2]))
+			members = [x, y, z] + ex
+			thr = [None] * n
+			paths = _paths(parents)
+			# thresholds grow towards the roots; members get 4 + 2*(height above the deepest level), capped
+			depth = max(len(q) for q in paths)
+			for m in members:
+				thr[m] = min(15, 3 + 2 * (depth - len(paths[m])))
+			genomes = []
+			for m in members:
+				d = rng.randint(max(0, thr[m] - 1), thr[m])
+				below = [i for i in range(n) if i != m and _is_prefix(paths[m], paths[i])
+				         and all(thr[q] is None or thr[q] < d for q in paths[i][len(paths[m]):])]
+				genomes.append([rng.choice(below) if below and rng.random() < 0.4 else m, d])
+			for _ in range(rng.choice([0, 0, 1, 2])):
+				genomes.append([rng.randrange(n), 17 if rng.random() < 0.5 else 16])
+			if rng.random() < 0.3:
+				# a nearest genome that matches nothing: assigned to a taxon without thresholds on its lineage
+				free = [i for i in range(n) if all(thr[q] is None for q in paths[i])]
+				if free:
+					genomes.append([rng.choice(free), 0])
+			perms = list(itertools.permutations(genomes)) if len(genomes) <= 4 else [rng.sample(genomes, len(genomes)) for _ in range(12)]
+			f32 = rng.random() < 0.5
+			for perm in perms:
+				ctx.count('stream:classify-three-level-general')
+				yield 'classify', dict(parents=parents, thr=thr, genomes=[list(g) for g in perm], f32=f32)
+	# ---- classify / matching_taxon / find_matches call forms: distance array dtype (float16/32/64, byte-swapped), non-contiguous
+	#      views with decoy cells, read-only; reference genomes as a tuple; strict=np.True_ / 1; distance scalars as Python
+	#      float / int; find_matches fed a list / a generator; one AnnotatedGenome object listed several times; the same
+	#      reference list and array used for a second call
+	for _ in range(ctx.pick(700, 6000)):
+		n = rng.randint(1, 9)
+		parents = _rand_forest(rng, n)
+		thr = _rand_thr(rng, parents)
+		g = rng.randint(1, 8)
+		genomes = [[rng.randrange(n), rng.choice([0, 16, 16, 17]) if rng.random() < 0.2 else rng.randint(0, 17)] for _ in range(g)]
+		for _ in range(2):
+			rng.shuffle(genomes)
+			ctx.count('stream:classify-call-forms')
+			yield 'classify', dict(parents=parents, thr=thr, genomes=[list(x) for x in genomes], opts=_rand_opts(rng, genomes, 16))
+	# ---- unusual taxon names in the warning (commas, colons, empty, repeated, non-ASCII, a line break, the warning's own
+	#      wording): recognised by short_repr() '<id>:<name>' in any arrangement
+	for _ in range(ctx.pick(300, 3000)):
+		n = rng.randint(3, 8)
+		parents = _rand_forest(rng, n)
+		if rng.random() < 0.5:
+			parents = [-1] + [rng.choice([0, 0, max(0, i - 1)]) for i in range(1, n)]     # one tree: conflicts are frequent
+		thr = [rng.choice([None, 8, 10, 12]) if i else rng.choice([None, 14]) for i in range(n)]
+		names = [rng.choice(_ODD_NAMES) for _ in range(n)]
+		genomes = [[rng.randrange(n), rng.randint(0, 12)] for _ in range(rng.randint(2, 6))]
+		ctx.count('stream:classify-unusual-names')
+		yield 'classify', dict(parents=parents, thr=thr, genomes=genomes, opts=dict(names=names, layout=rng.choice(['f64', 'f32'])))
+	# ---- distances and thresholds that are not multiples of 1/16 (thirds, sevenths, tenths, hundredths ...), as float64
+	#      and as rounded float32 / float16 arrays: the integer model does not apply, the matched set is computed with
+	#      exact comparisons of the very numbers handed over
+	for _ in range(ctx.pick(700, 6000)):
+		n = rng.randint(1, 9)
+		parents = _rand_forest(rng, n)
+		den = rng.choice([3, 7, 10, 12, 13, 100, 1000])
+		thr16 = _rand_thr(rng, parents)
+		thr = [None if t is None else min(den, round(t * den / 16)) for t in thr16]
+		g = rng.randint(1, 8)
+		tvals = [t for t in thr if t is not None] or [den // 2]
+		genomes = []
+		for _ in range(g):
+			# often exactly on, or one step beside, a threshold
+			d = rng.choice(tvals) + rng.choice([-1, 0, 0, 1]) if rng.random() < 0.6 else rng.randint(0, den + 1)
+			genomes.append([rng.randrange(n), max(0, d)])
+		o = _rand_opts(rng, genomes, den)
+		o['layout'] = rng.choice(_LAYOUTS)
+		for _ in range(2):
+			rng.shuffle(genomes)
+			ctx.count('stream:classify-real-distances')
+			yield 'classify', dict(parents=parents, thr=thr, genomes=[list(x) for x in genomes], den=den, opts=dict(o))
+	# ---- size class: many reference genomes (up to 300, thorough 1000) on larger forests
+	for _ in range(ctx.pick(30, 400)):
+		n = rng.randint(10, 60)
+		parents = _rand_forest(rng, n)
+		thr = _rand_thr(rng, parents)
+		g = rng.randint(50, ctx.pick(300, 1000))
+		lo = rng.choice([0, 0, 4, 8])
+		genomes = [[rng.randrange(n), rng.randint(lo, 17)] for _ in range(g)]
+		for _ in range(3):
+			rng.shuffle(genomes)
+			ctx.count('stream:classify-large')
+			yield 'classify', dict(parents=parents, thr=thr, genomes=[list(x) for x in genomes], f32=rng.random() < 0.5)
+	# ---- database-loaded objects through gambit.query.query (+ the command line with several queries, FASTA input,
+	#      -l/--ldir, -c, --no-progress), signature file order different from the genome order, unrelated signatures
+	def qcase(parents, thr, refs, queries, full):
+		nref = len(refs)
+		sigorder = list(range(nref))
+		if rng.random() < 0.7:
+			rng.shuffle(sigorder)
+		for _ in range(rng.choice([0, 0, 1, 2])):
+			sigorder.insert(rng.randint(0, len(sigorder)), -rng.randint(1, 3))
+		api = dict(form=rng.choice(['params', 'kw', 'positional']), chunksize=rng.choice([None, 1, 2, 3, 1000]),
+		           qcontainer=rng.choice(['list', 'tuple', 'siglist', 'sigarray']), load=rng.choice(['files', 'dir']),
+		           qdtype=rng.choice(['u2', 'u4', 'u8']))
+		cli = {}
+		if full:
+			cli = dict(input=rng.choice(['sig', 'sig', 'fasta', 'fasta-list']))
+			if rng.random() < 0.5:
+				cli['cores'] = rng.choice([1, 2])
+			if rng.random() < 0.5:
+				cli['noprogress'] = True
+		return dict(parents=parents, thr=thr, refs=refs, queries=queries, sigorder=sigorder, rdtype=rng.choice(['u2', 'u4', 'u8']),
+		            api=api, cli=cli)
+
+	nq = ctx.pick(36, 400)
+	for it in range(nq):
+		if it % 4 == 0:
+			# the three-level conflict {species, subspecies, sibling species} under a genus (+ another tree)
+			parents, x, y, z = _three_level_forest(rng.randint(2, 3), rng.randint(1, 2), 0, rng.randint(1, 2))
+			parents = parents + [-1]
+			n = len(parents)
+			thr = [None] * n
+			thr[x], thr[y], thr[z] = 8, rng.choice([4, 6]), 8
+			thr[0] = rng.choice([None, 12])
+			thr[n - 1] = rng.choice([None, 8])
+			refs = [[x, rng.randint(7, 16)], [y, rng.randint(9, 16)], [z, rng.randint(7, 16)]]
+			refs += [[rng.randrange(n), rng.randint(1, 16)] for _ in range(rng.randint(0, 3))]
+			rng.shuffle(refs)
+		else:
+			n = rng.randint(2, 8)
+			parents = _rand_forest(rng, n)
+			thr = _rand_thr(rng, parents)
+			refs = [[rng.randrange(n), rng.randint(1, 16)] for _ in range(rng.randint(1, 9))]
+		queries = [rng.randint(1, 16) for _ in range(rng.randint(1, 5))]
+		if rng.random() < 0.5:
+			queries[0] = 16
+		ctx.count('stream:query-api-and-cli')
+		yield 'query', qcase(parents, thr, refs, queries, it % 2 == 0)
